@@ -214,6 +214,8 @@ def _hoistable_calls(st):
         roots = [st.test]
     elif isinstance(st, ast.For):
         roots = [st.iter]
+    elif isinstance(st, ast.Raise) and st.exc is not None:
+        roots = [st.exc]              # `raise self._error(..)`: a helper that builds the exception
     out = []
 
     def walk(e, cond):
